@@ -124,7 +124,19 @@ func ruleP02Arms(p *Prog, r *Report) {
 // term.  Returns the Plus call.
 func (p *Prog) foldCheck(r *Report, rule, key string, fn *ssa.Function, resultVal ssa.Value, termOK func(arg ssa.Value) (bool, string)) {
 	phis, inputs := phiCycle(resultVal)
-	if len(phis) == 0 {
+	// the accumulator may be a variable that a local function literal updates (a cell instead of
+	// a phi): its stores are the inputs, a read of it is "the running total"
+	var accCell *ssa.Alloc
+	if u, isU := strip(resultVal).(*ssa.UnOp); isU && u.Op == token.MUL && len(phis) == 0 {
+		if cell := cellOf(u.X); cell != nil && len(storesTo(cell)) >= 2 {
+			accCell = cell
+			inputs = nil
+			for _, st := range storesTo(cell) {
+				inputs = append(inputs, strip(st.val))
+			}
+		}
+	}
+	if len(phis) == 0 && accCell == nil {
 		r.bad(rule, key+":shape", p.pos(fn.Pos()), "the result is not accumulated in a loop")
 		return
 	}
@@ -141,7 +153,13 @@ func (p *Prog) foldCheck(r *Report, rule, key string, fn *ssa.Function, resultVa
 		}
 		nPlus++
 		ph, isPhi := strip(recv).(*ssa.Phi)
-		r.check(isPhi && phis[ph], rule, key+":acc", p.instrPos(call), "term is added to the running total", "a term is added to something other than the running total")
+		isAcc := isPhi && phis[ph]
+		if accCell != nil {
+			if lu, isLoad := strip(recv).(*ssa.UnOp); isLoad && lu.Op == token.MUL && cellOf(lu.X) == accCell {
+				isAcc = true
+			}
+		}
+		r.check(isAcc, rule, key+":acc", p.instrPos(call), "term is added to the running total", "a term is added to something other than the running total")
 		ok, why := termOK(args[0])
 		r.check(ok, rule, key+":term", p.instrPos(call), "adds "+why, "adds the wrong term: "+why)
 		only, g := onlyLoopGuards(call.Block())
@@ -426,15 +444,15 @@ func ruleP02Range(p *Prog, r *Report) {
 		// one return whose hour (or minute) argument was chosen by the day before: one row per way
 		expanded := false
 		if c, idx := callOf(retResult(ret, 0)); c != nil && idx == 0 && len(c.Common().Args) >= 2 {
-			hs := valueRows(c.Common().Args[0], 0, map[ssa.Value]bool{})
-			ms := valueRows(c.Common().Args[1], 0, map[ssa.Value]bool{})
+			hs := polyRows(c.Common().Args[0], 0)
+			ms := polyRows(c.Common().Args[1], 0)
 			if len(hs)*len(ms) > 1 && len(hs)*len(ms) <= 9 {
 				expanded = true
 				for _, h := range hs {
 					for _, mi := range ms {
 						pl := newPoly()
-						pl.addScaled(polyOf(h.val), 60)
-						pl.addScaled(polyOf(mi.val), 1)
+						pl.addScaled(h.pl, 60)
+						pl.addScaled(mi.pl, 1)
 						gs := append(append(append([]Guard{}, h.guards...), mi.guards...), guardsOf(ret.Block())...)
 						offRows = append(offRows, offRow{pl, gs, ret})
 					}
@@ -942,4 +960,45 @@ func isEmptySliceLit(v ssa.Value) bool {
 		}
 	}
 	return false
+}
+
+// polyRows: the ways an integer expression comes about, each as a polynomial under the
+// conditions of that way — a value chosen in branches before it is used (a phi, a variable
+// assigned under an if), also when such a value is one operand of a sum or difference.
+type polyRow struct {
+	pl     *Poly
+	guards []Guard
+}
+
+func polyRows(v ssa.Value, depth int) []polyRow {
+	if b, ok := strip(v).(*ssa.BinOp); ok && depth < 4 && (b.Op == token.ADD || b.Op == token.SUB) {
+		xs, ys := polyRows(b.X, depth+1), polyRows(b.Y, depth+1)
+		if len(xs)*len(ys) <= 9 {
+			var out []polyRow
+			for _, x := range xs {
+				for _, y := range ys {
+					pl := newPoly()
+					pl.addScaled(x.pl, 1)
+					if b.Op == token.ADD {
+						pl.addScaled(y.pl, 1)
+					} else {
+						pl.addScaled(y.pl, -1)
+					}
+					out = append(out, polyRow{pl, append(append([]Guard{}, x.guards...), y.guards...)})
+				}
+			}
+			return out
+		}
+	}
+	var out []polyRow
+	for _, rw := range valueRows(v, 0, map[ssa.Value]bool{}) {
+		if rw.val == nil {
+			continue
+		}
+		out = append(out, polyRow{polyOf(rw.val), rw.guards})
+	}
+	if len(out) == 0 {
+		out = append(out, polyRow{polyOf(v), nil})
+	}
+	return out
 }
